@@ -67,12 +67,12 @@ class Builder:
     def decorate(self, f, spec):
         from connectome import impure, optional, meta, inverse
         from connectome.interface.complex_edges import hash_by_value
-        if spec.get('kwbind'):
+        if spec.get('kwbind') or spec.get('posbind'):
             # explicit factory with keyword bindings: Function(f, 'a', name='b')
             from connectome.interface.edges import Function
             from connectome.interface.nodes import Silent
             # `kworder`: the order in which the keyword bindings are written down; `kwsilent` / `possilent`: bindings wrapped in Silent
-            order = spec.get('kworder') or list(spec['kwbind'])
+            order = spec.get('kworder') or list(spec.get('kwbind', {}))
             kws = {k: (Silent(spec['kwbind'][k]) if k in spec.get('kwsilent', []) else spec['kwbind'][k]) for k in order}
             pos = [Silent(a) if i in spec.get('possilent', []) else a for i, a in enumerate(spec.get('posbind', []))]
             f = Function(f, *pos, **kws)
